@@ -35,6 +35,7 @@ fn family(name: &str) -> GenCfg {
         drop_containers: false,
         setgen: None,
         panics: false,
+        second_type: false,
     };
     match name {
         "mixed" => base,
@@ -60,6 +61,9 @@ fn family(name: &str) -> GenCfg {
         // owner while a writer may still be inside it
         "helpchurn" => GenCfg { threads: (4, 6), containers: 2, strategy: 1, w: [9, 3, 3, 1, 6, 2, 1, 1, 1], ops: (1, 3), with_null: false, ..base },
         "helpiso" => GenCfg { threads: (3, 4), containers: 2, strategy: 1, w: [9, 4, 4, 1, 5, 3, 2, 3, 1], ops: (3, 7), ..base },
+        // two pointee types sharing the pool of addresses: values die young so that addresses move
+        // from one type to the other while readers hold stale addresses
+        "xtype" => GenCfg { threads: (3, 4), second_type: true, w: [9, 3, 4, 1, 7, 3, 1, 1, 1], ops: (3, 7), with_null: false, ..base },
         other => panic!("unknown family {}", other),
     }
 }
